@@ -112,6 +112,62 @@ fn call_mock(
     }
 }
 
+/// The same call with the request body arriving in several pieces (a body larger than the
+/// transport's read buffer, or a slow uploader): the answer must not depend on how the body
+/// was cut.
+fn call_mock_chunked(
+    server: &Arc<tokio::sync::Mutex<mock_omaha_server::OmahaServer>>,
+    path: &str,
+    body: Vec<u8>,
+    pieces: usize,
+) -> Result<(u16, Vec<(String, Vec<u8>)>, Vec<u8>), String> {
+    use std::future::Future;
+    use std::task::{Context, Poll};
+    let server = server.clone();
+    let path = path.to_string();
+    let r = std::panic::catch_unwind(std::panic::AssertUnwindSafe(move || {
+        let _g = SutGuard::enter();
+        let waker = futures::task::noop_waker();
+        let mut cx = Context::from_waker(&waker);
+        let (tx, rbody) = hyper::Body::channel();
+        let mut tx = Some(tx);
+        let req = hyper::Request::builder().method("POST").uri(path.as_str()).body(rbody).map_err(|e| e.to_string())?;
+        let n = pieces.max(1);
+        let size = body.len().div_ceil(n).max(1);
+        let mut chunks: std::collections::VecDeque<Vec<u8>> = body.chunks(size).map(|c| c.to_vec()).collect();
+        let mut fut = Box::pin(async move {
+            let resp = mock_omaha_server::handle_request(req, &server).await.map_err(|e| e.to_string())?;
+            let (parts, body) = resp.into_parts();
+            let bytes = hyper::body::to_bytes(body).await.map_err(|e| e.to_string())?.to_vec();
+            let headers: Vec<(String, Vec<u8>)> = parts.headers.iter().map(|(k, v)| (k.as_str().to_string(), v.as_bytes().to_vec())).collect();
+            Ok::<_, String>((parts.status.as_u16(), headers, bytes))
+        });
+        for _ in 0..256 {
+            if let Some(t) = tx.as_mut() {
+                if let Some(c) = chunks.pop_front() {
+                    if t.try_send_data(c.clone().into()).is_err() {
+                        chunks.push_front(c);
+                    }
+                }
+                if chunks.is_empty() {
+                    tx = None; // end of body
+                }
+            }
+            if let Poll::Ready(x) = fut.as_mut().poll(&mut cx) {
+                return x;
+            }
+        }
+        Err("no answer to a request whose body arrived in pieces (256 polls)".to_string())
+    }));
+    match r {
+        Ok(x) => x,
+        Err(_) => {
+            let pi = crate::take_last_panic();
+            Err(format!("PANIC {}", pi.map(|p| format!("{} at {}", p.msg, p.location)).unwrap_or_default()))
+        }
+    }
+}
+
 /// The same call while another connection to the server is stalled: connection A has sent its
 /// request head and the first `split` bytes of its body and then nothing; the client's request
 /// (connection B) must still be answered; afterwards A's body completes and A must be answered
@@ -281,7 +337,13 @@ pub fn handle(w: &mut World, id: u64, _label: &str, req: &SentReq) -> Option<(u1
         let split = w.draws.draw(&format!("{_label}/stalled_neighbour.split"), 4) as usize * req.body.len() / 4;
         call_mock_beside_stalled_connection(&server, &path, req.body.clone(), split)
     } else {
-        call_mock(&server, &path, req.body.clone())
+        let pieces = [1usize, 1, 2, 3, 7][w.draws.draw(&format!("{_label}/body_pieces"), 5) as usize];
+        if pieces > 1 {
+            w.stat("mock.request_body_in_pieces");
+            call_mock_chunked(&server, &path, req.body.clone(), pieces)
+        } else {
+            call_mock(&server, &path, req.body.clone())
+        }
     };
     match answer {
         Ok((status, headers, body)) => {
@@ -395,12 +457,10 @@ pub fn direct_mixed_exchange(
     let uri = req.uri().to_string();
     let body = futures::executor::block_on(hyper::body::to_bytes(req.into_body())).map(|b| b.to_vec()).unwrap_or_default();
     let result = call_mock(&server, &origin_form(&uri), body);
-    let mut w = lock(world);
-    w.stat("client.direct_mixed_request");
+    lock(world).stat("client.direct_mixed_request");
     match result {
         Ok((_status, _headers, rbody)) => {
             let doc: Option<Value> = serde_json::from_slice(&rbody).ok();
-            drop(w);
             let parses = {
                 let _g = SutGuard::enter();
                 omaha_client::protocol::response::parse_json_response(&rbody).is_ok()
@@ -408,7 +468,78 @@ pub fn direct_mixed_exchange(
             lock(world).rec(Kind::MockDirect { apps: listed, doc, parses, cfg, failure: None });
         }
         Err(e) => {
-            w.rec(Kind::MockDirect { apps: listed, doc: None, parses: false, cfg, failure: Some(e) });
+            lock(world).rec(Kind::MockDirect { apps: listed, doc: None, parses: false, cfg, failure: Some(e) });
         }
     }
+    direct_event_report_under_cohort_assertion(world, apps, config, handler, &server, &params);
+}
+
+/// The mock's cohort assertion is documented for update checks.  An event-only report from an app
+/// that has meanwhile been moved to another cohort (the cohort the mock itself assigns) must be
+/// answered like any other event report.  The assertion is set for this one exchange and cleared
+/// again (an admin action), so that the state machine's own update checks are not affected.
+fn direct_event_report_under_cohort_assertion(
+    world: &Shared,
+    apps: &[omaha_client::common::App],
+    config: &omaha_client::configuration::Config,
+    handler: Option<&StandardCupv2Handler>,
+    server: &Arc<tokio::sync::Mutex<mock_omaha_server::OmahaServer>>,
+    params: &omaha_client::request_builder::RequestParams,
+) {
+    use omaha_client::protocol::request::{Event, EventType, GUID};
+    use omaha_client::request_builder::RequestBuilder;
+    if lock(world).draws.draw("direct/cohort_assertion", 3) != 0 {
+        return;
+    }
+    let cfg = lock(world).server.mock_cfg.clone();
+    match server.try_lock() {
+        Ok(mut s) => s.set_all_cohort_assertions(Some("asserted-cohort".to_string())),
+        Err(_) => return,
+    }
+    let mut listed = vec![];
+    let built = {
+        let _g = SutGuard::enter();
+        let mut rb = RequestBuilder::new(config, params);
+        for a in apps.iter() {
+            let mut moved = a.clone();
+            moved.cohort.id = Some("1:1:".to_string());
+            rb = rb.add_event(&moved, Event::success(EventType::UpdateComplete));
+            listed.push((a.id.clone(), true));
+        }
+        rb.session_id(GUID::new()).request_id(GUID::new()).build(handler)
+    };
+    let result = match built {
+        Ok((req, _meta)) => {
+            let uri = req.uri().to_string();
+            let body = futures::executor::block_on(hyper::body::to_bytes(req.into_body())).map(|b| b.to_vec()).unwrap_or_default();
+            Some(call_mock(server, &origin_form(&uri), body))
+        }
+        Err(_) => None,
+    };
+    if let Ok(mut s) = server.try_lock() {
+        s.set_all_cohort_assertions(None);
+    }
+    let mut w = lock(world);
+    w.stat("client.direct_event_report_under_cohort_assertion");
+    match result {
+        Some(Ok((_st, _h, rbody))) => {
+            let doc: Option<Value> = serde_json::from_slice(&rbody).ok();
+            drop(w);
+            let parses = {
+                let _g = SutGuard::enter();
+                omaha_client::protocol::response::parse_json_response(&rbody).is_ok()
+            };
+            let answered: Vec<String> = doc
+                .as_ref()
+                .and_then(|d| d.get("response"))
+                .and_then(|r| r.get("app"))
+                .and_then(|a| a.as_array())
+                .map(|a| a.iter().filter_map(|x| x.get("appid").and_then(|s| s.as_str()).map(|s| s.to_string())).collect())
+                .unwrap_or_default();
+            lock(world).rec(Kind::MockDirectEvent { apps: listed.iter().map(|l| l.0.clone()).collect(), answered_apps: answered, parses, failure: None });
+        }
+        Some(Err(e)) => w.rec(Kind::MockDirectEvent { apps: listed.iter().map(|l| l.0.clone()).collect(), answered_apps: vec![], parses: false, failure: Some(e) }),
+        None => {}
+    }
+    let _ = cfg;
 }
